@@ -30,3 +30,7 @@ Definition class_ok (n : nat) (l : list (list pkind)) : bool := forallb (fun ks 
 
 Lemma class_ok_spec n l ks : class_ok n l = true -> In ks l -> moral_criterion_on n ks.
 Proof. unfold class_ok. rewrite forallb_forall. intros H Hin. apply all_triples_ok_spec. apply H. exact Hin. Qed.
+
+(* shards of the ancestral class on 4 nodes, by the kind of the node pair (0,1) *)
+Definition anc4_test (ks : list pkind) : bool := acyclicb (graph_of 4 ks) && anc_ok (graph_of 4 ks).
+Definition anc4_shard (k : pkind) : list (list pkind) := shard anc_kinds 5 anc4_test k.
